@@ -1,7 +1,6 @@
 (* Dispatcher for C15: run the Spectrum integration/binning/resizing model on an encoded case.
    1: Spectrum(w, v) followed by a sequence of resizing calls -> the state and exception after each call
-   2: integrate   3: bin   4: ends   5: sample
-   6: as 1 with resample validating the grid first (proposed fix) *)
+   2: integrate   3: bin   4: ends   5: sample *)
 From LV Require Import Lib.Codec Model.SpectrumEdit.
 Require Import ExtrOcamlBasic.
 
@@ -32,14 +31,6 @@ Definition run_c15 (inp : list Z) : list Z :=
         match make w v with
         | Err e => [1; errcode e]
         | Ok s => 0 :: elist eoutcome (trace s ops)
-        end
-    | None => emalformed end
-  | 6 :: rest =>   (* as 1, for a tree that carries the resample fix *)
-    match pall (w <- plq ;; v <- plq ;; ops <- plist pop ;; pret (w, v, ops)) rest with
-    | Some (w, v, ops) =>
-        match make w v with
-        | Err e => [1; errcode e]
-        | Ok s => 0 :: elist eoutcome (trace_fixed s ops)
         end
     | None => emalformed end
   | 2 :: rest =>
